@@ -118,7 +118,7 @@ func genSim(r *term.Rng, idx int) term.T {
 		case k < 17:
 			return term.C("SInsertAction", tsel())
 		case k < 19:
-			return term.C("SModEnergy", tsel(), term.F(term.Pick(r, []float64{50, 100, 120, -30, 10})))
+			return term.C("SModEnergy", tsel(), term.F(term.Pick(r, []float64{50, 100, 120, -30, 10, 49.95, 99.99, 0.04})))
 		case k < 20:
 			return term.C("SModSP", term.I(int64(r.Range(-3, 3))))
 		case k < 21:
@@ -163,8 +163,30 @@ func genSim(r *term.Rng, idx int) term.T {
 		}
 		scripts[nbody] = term.L(ops...)
 	}
+	// aimed scenarios (one battle in ten each, when there is room for them):
+	//  limboUlt: an insert ability (priority 45) whose body puts character 1 into limbo (revivable, HP 0) is
+	//            queued by every action while the script asks for character 1's ultimate at every check: the
+	//            ultimate (priority 500) is taken while its source is held at zero HP - not dead, not flagged
+	//  limboEnd: the phase-2 tick listener makes the acting unit revivable, takes its HP to zero and queues an
+	//            insert of that unit AFTER the last drain of the turn: the turn-end death check announces the
+	//            unit dead and the next drain must drop its insert
+	limboUlt := !preBattle && nc > 0 && nbody >= 2 && r.Chance(1, 10)
+	limboEnd := !preBattle && !limboUlt && nc > 0 && natk0-nbody >= 1 && r.Chance(1, 10)
+	if limboUlt {
+		scripts[0] = term.L(term.C("SInsertAbility", term.I(1), term.I(45), term.C("TId", term.I(1)), term.L(), term.Nat(1)))
+		scripts[1] = term.L(term.C("SSetRevivable", term.C("TId", term.I(1)), term.B(true)),
+			term.C("SSetHP", term.C("TId", term.I(1)), term.F(0)))
+	}
+	if limboEnd {
+		scripts[nbody] = term.L(term.C("SSetRevivable", term.C("TSelfSel"), term.B(true)),
+			term.C("SSetHP", term.C("TSelfSel"), term.F(0)),
+			term.C("SInsertAbility", term.I(2), term.I(term.Pick(r, prios)), term.C("TSelfSel"), term.L(), term.Nat(r.Intn(nbody))))
+	}
 	ids := func(k int) term.T {
 		out := []term.T{}
+		if limboUlt {
+			return term.L(term.Nat(0), term.Nat(0), term.Nat(r.Intn(nbody)))
+		}
 		for ; k > 0; k-- {
 			out = append(out, term.Nat(r.Intn(nbody)))
 		}
@@ -202,7 +224,10 @@ func genSim(r *term.Rng, idx int) term.T {
 	for i := 0; i < nc; i++ {
 		kind := r.Intn(len(charKinds))
 		k := charKinds[kind]
-		en0 := term.Pick(r, []float64{0, 0, 50, k.maxEnergy, k.maxEnergy, 500})
+		en0 := term.Pick(r, []float64{0, 0, 50, k.maxEnergy, k.maxEnergy, 500, k.maxEnergy - 0.05, k.maxEnergy * 0.9999})
+		if limboUlt && i == 0 {
+			en0 = k.maxEnergy
+		}
 		code := func(t interface{ String() string }) int {
 			switch t.String() {
 			case "ENEMIES":
@@ -237,7 +262,9 @@ func genSim(r *term.Rng, idx int) term.T {
 	ults := []term.T{}
 	for j := r.Range(0, 40); j > 0; j-- {
 		reqs := []term.T{}
-		if r.Chance(1, 3) {
+		if limboUlt {
+			reqs = append(reqs, term.C("mkUR", term.I(1), term.I(3), term.I(int64(100+r.Intn(3)))))
+		} else if r.Chance(1, 3) {
 			for q := r.Range(1, 2); q > 0; q-- {
 				tgt := int64(r.Range(1, idC))
 				if r.Chance(1, 40) {
@@ -263,6 +290,12 @@ func genSim(r *term.Rng, idx int) term.T {
 		}
 		return k
 	}
+	phase2Slot := func(t term.T) term.T {
+		if limboEnd {
+			return term.L(term.Nat(nbody), term.Nat(nbody), term.Nat(nbody))
+		}
+		return t
+	}
 	battleSlot := func(t term.T) term.T {
 		if preBattle {
 			return term.L(term.Nat(nbody))
@@ -271,7 +304,7 @@ func genSim(r *term.Rng, idx int) term.T {
 	}
 	return term.C("mkCfg", term.L(units...), term.L(scripts...), term.L(next...), term.L(ults...),
 		battleSlot(lids(ln(r.Range(0, 1)))), lids(ln(r.Range(0, 4))), lids(ln(r.Range(0, 4))), lids(ln(r.Range(0, 4))), lids(ln(r.Range(0, 3))),
-		lids(ln(r.Range(0, 3))), lids(ln(r.Range(0, 3))), aids(ln(r.Range(0, 3))),
+		lids(ln(r.Range(0, 3))), phase2Slot(lids(ln(r.Range(0, 3)))), aids(ln(r.Range(0, 3))),
 		term.I(int64(r.Range(0, 4))), term.I(int64(r.Range(0, 12))))
 }
 
